@@ -56,19 +56,19 @@ def step (s : St) (line : String) : St × String :=
   | ["reset"] => ([], "ok")
   | ["new", n, df, thr] =>
     match df.toNat?, thr.toNat? with
-    | some df, some thr => (put s n (Index.new alg df thr), "ok")
+    | some df, some thr => (put s n (Index.new alg goSplit df thr), "ok")
     | _, _ => (s, "bad-op")
   | "set" :: n :: rest =>
     match get s n, rest.mapM parseElem with
     | some ix, some es =>
       if es.isEmpty then (s, "bad-op") else
-      let ix' := ix.set alg es
+      let ix' := ix.set alg goSplit es
       (put s n ix', status ix')
     | _, _ => (s, "bad-op")
   | ["rm", n, e] =>
     match get s n, parseIdHash e with
     | some ix, some (id, h) =>
-      match ix.remove alg id h with
+      match ix.remove alg goSplit id h with
       | some ix' => (put s n ix', status ix')
       | none => (s, "notfound")
     | _, _ => (s, "bad-op")
@@ -76,7 +76,7 @@ def step (s : St) (line : String) : St × String :=
     match get s n, lo.toNat?, hi.toNat?, bool? el with
     | some ix, some lo, some hi, some el =>
       if lo < M ∧ hi < M then
-        let r := ix.getRange alg lo hi el
+        let r := ix.getRange alg goSplit lo hi el
         (s, s!"{showDig r.hash} {r.count} {showPairs r.elems}")
       else (s, "bad-op")
     | _, _, _, _ => (s, "bad-op")
@@ -86,7 +86,7 @@ def step (s : St) (line : String) : St × String :=
       else if v = "wdiff" then some (false, true) else if v = "wcdiff" then some (true, true) else none
     match mode, get s a, get s b with
     | some (g, w), some ia, some ib =>
-      match diff alg g w ia ib with
+      match diff alg goSplit g w ia ib with
       | some c => (s, showCtx c)
       | none => (s, "nonterm")
     | _, _, _ => (s, "bad-op")
